@@ -488,4 +488,60 @@ theorem readLoop_checks (tl : Tail) (fuel : Nat) (ps : List Nat) (st : FS) (fs :
       rw [hr] at hpost
       exact absurd hpost id
 
+/-! ### what the call-by-call check implies about the delivered bytes -/
+
+theorem delivered_all_eof (rs : List RRes) (h : rs.all (· == .eof) = true) : delivered rs = [] := by
+  induction rs with
+  | nil => rfl
+  | cons r rs ih =>
+    simp only [List.all_cons, Bool.and_eq_true, beq_iff_eq] at h
+    obtain ⟨h1, h2⟩ := h
+    subst h1
+    simpa [delivered] using ih h2
+
+theorem checkReads_prefix (eofOk errOk : Bool) (exp : Bytes) (ps : List Nat) (rs : List RRes)
+    (h : checkReads eofOk errOk exp ps rs = true) :
+    delivered rs <+: exp ∧ ((RRes.eof ∈ rs ∨ ∃ e, RRes.err e ∈ rs) → delivered rs = exp) := by
+  induction rs generalizing exp ps with
+  | nil => exact ⟨by simp [delivered], by simp⟩
+  | cons r rs ih =>
+    cases ps with
+    | nil => simp [checkReads] at h
+    | cons p ps =>
+      cases r with
+      | data d =>
+        simp only [checkReads, Bool.and_eq_true, decide_eq_true_eq] at h
+        obtain ⟨⟨⟨-, -⟩, hpre⟩, hrest⟩ := h
+        have hpre' : d <+: exp := List.isPrefixOf_iff_prefix.mp hpre
+        obtain ⟨t, ht⟩ := hpre'
+        obtain ⟨i1, i2⟩ := ih _ _ hrest
+        have hd : exp.drop d.length = t := by rw [← ht, List.drop_left']; rfl
+        rw [hd] at i1 i2
+        refine ⟨?_, ?_⟩
+        · simp only [delivered]
+          rw [← ht]
+          exact (List.prefix_append_right_inj d).mpr i1
+        · intro hm
+          have hm' : RRes.eof ∈ rs ∨ ∃ e, RRes.err e ∈ rs := by
+            rcases hm with hm | ⟨e, hm⟩
+            · left; simpa using hm
+            · right; exact ⟨e, by simpa using hm⟩
+          simp only [delivered]
+          rw [i2 hm', ht]
+      | eof =>
+        simp only [checkReads, Bool.and_eq_true] at h
+        obtain ⟨⟨h1, -⟩, h3⟩ := h
+        have he : exp = [] := by simpa using h1
+        have hd := delivered_all_eof rs h3
+        subst he
+        simp [delivered, hd]
+      | err e =>
+        simp only [checkReads, Bool.and_eq_true] at h
+        obtain ⟨⟨h1, -⟩, h3⟩ := h
+        have he : exp = [] := by simpa using h1
+        have hr : rs = [] := by simpa using h3
+        subst he hr
+        simp [delivered]
+      | fuel => simp [checkReads] at h
+
 end Tunnox.C10
